@@ -19,6 +19,11 @@ Held-object histories (`op: get`): a list object is obtained once (`ws = t.webse
 `tier = tr[i]`) and edited several times, also after operations that raised.  After every operation
 `held_reasons` states the property for the held objects on the real code (metainfo mirrors the held
 object, read-back equals it); `plan_op` gives the equivalent fresh-getter history for the driver.
+
+Index and slice assignment on URL lists (`lst[i] = u`, `lst[a:b:st] = us`, `lst[:] = lst`,
+`t.webseeds = t.webseeds`; /repo e62ce6d) and `replace()` on a held Trackers object that raises
+(/repo 41bec34) are judged like every other operation (I vs S, I vs M); only slice assignment on the
+tiers container (`t.trackers[a:b] = …`, open finding D16b) is outside the theorem hypothesis.
 """
 import itertools
 import json
@@ -29,13 +34,14 @@ from harness import common
 RULE = ('histories = start state + operations on trackers / a tier / webseeds / httpseeds, each through a fresh getter '
         'call or on a list object obtained once and held (get) '
         '(set, append, insert, extend, +=, delete, slice delete, clear, remove, pop, replace, index '
-        'and slice assignment) over the URL alphabet {a, b, c, "http://a b", "http://a+b", invalid, '
-        'blank, leading-space (valid as given, invalid as stored)}: exhaustive short histories + random histories up to 8 operations '
+        'and slice assignment — plain and extended slices, the list assigned to itself) over the URL alphabet {a, b, c, d, "http://a b", "http://a+b", invalid, '
+        'blank, leading-space (valid as given, invalid as stored)}: exhaustive short histories + an exhaustive grid of index / slice assignments on lists of 0–3 URLs and on tiers + random histories up to 8 operations '
         'from the empty torrent and from non-trivial start states; every prefix is one evaluation; '
         'non-trivial = the prefix changed at least one metainfo field at least twice or ended in an '
         'error after a change; distinct = distinct (start, operation prefix)')
 
 A, B, C = 'http://a/1', 'http://b/2', 'udp://c:80/3'
+D = 'http://d/4'
 SP, PL = 'http://a b', 'http://a+b'          # duplicates of each other after coercion
 BAD = 'foo'                                  # invalid (no scheme / netloc)
 BAD2 = 'http://h:99999/'                     # invalid (port)
@@ -90,11 +96,12 @@ def _apply_u(lst, op):
     elif n == 'pop':
         lst.pop() if op['i'] is None else lst.pop(op['i'])
     elif n == 'replace':
-        lst.replace(list(op['us']))
+        lst.replace(lst if op.get('self') else list(op['us']))
     elif n == 'setitem':
         lst[op['i']] = op['u']
     elif n == 'setslice':
-        lst[op['a']:op['b']] = list(op['us'])
+        # `lst[a:b:st] = us`; 'self': the list object itself is the value (`lst[:] = lst`)
+        lst[slice(op['a'], op['b'], op.get('st'))] = lst if op.get('self') else list(op['us'])
     else:
         raise RuntimeError(f'harness: unknown op {n}')
 
@@ -119,7 +126,7 @@ def _apply_t(tr, op):
     elif n == 'pop':
         tr.pop() if op['i'] is None else tr.pop(op['i'])
     elif n == 'replace':
-        tr.replace(list(op['vs']))
+        tr.replace(tr if op.get('self') else list(op['vs']))
     elif n == 'setitem':
         tr[op['i']] = op['v']
     elif n == 'setslice':
@@ -141,6 +148,30 @@ def _attached(H, k):
         if x is tier:
             return i
     return None
+
+
+def resolve_self(t, H, op):
+    """`'self': True` = the value is the list object the operation is applied to (`lst[a:b] = lst`,
+    `lst.replace(lst)`, `t.webseeds = t.webseeds`, `t.trackers = t.trackers`; the held object if one is held).  Returns the
+    operation with the value written out (what the model is given): the content of that object as it
+    is BEFORE the operation."""
+    on, r = op['on'], {x: y for x, y in op.items() if x != 'self'}
+    try:
+        if on in ('ws', 'hs'):
+            obj = H[on] if H[on] is not None else getattr(t, 'webseeds' if on == 'ws' else 'httpseeds')
+            cur = [str(u) for u in obj]
+        elif on == 'tr':
+            obj = H['tr'] if H['tr'] is not None else t.trackers
+            cur = [[str(u) for u in tier] for tier in obj]
+        elif 'k' in op:
+            cur = [str(u) for u in (H['tiers'].get(op['k']) or ())]
+        else:
+            obj = H['tr'] if H['tr'] is not None else t.trackers
+            cur = [str(u) for u in obj[op['ti']]]
+    except Exception:  # noqa  (the getter / the index raises: so will the operation itself)
+        cur = []
+    r['v' if op['op'] == 'set' else 'vs' if on == 'tr' else 'us'] = cur
+    return r
 
 
 def plan_op(H, op):
@@ -194,7 +225,10 @@ def apply_op(t, op, H=None):
     elif on in ('ws', 'hs'):
         attr = 'webseeds' if on == 'ws' else 'httpseeds'
         if n == 'set':
-            setattr(t, attr, _pyval(op['v']))
+            if op.get('self'):
+                setattr(t, attr, H[on] if H[on] is not None else getattr(t, attr))
+            else:
+                setattr(t, attr, _pyval(op['v']))
             H[on] = None                       # assignment succeeded: a held object is stale now
         elif H[on] is not None:
             h = H[on]
@@ -224,7 +258,10 @@ def apply_op(t, op, H=None):
                 _apply_u(tr[op['ti']], op)
     elif on == 'tr':
         if n == 'set':
-            t.trackers = _pyval(op['v'])
+            if op.get('self'):
+                t.trackers = H['tr'] if H['tr'] is not None else t.trackers
+            else:
+                t.trackers = _pyval(op['v'])
             H['tr'], H['tiers'] = None, {}
         elif H['tr'] is not None:
             h = H['tr']
@@ -311,7 +348,7 @@ def run_history(torf, case):
     steps = []
     H = new_held()
     for op in case['ops']:
-        via, mop = plan_op(H, op)
+        via, mop = plan_op(H, resolve_self(t, H, op) if op.get('self') else op)
         try:
             if via != 'skip':
                 apply_op(t, op, H)
@@ -465,34 +502,19 @@ def reject_expected(op, before_rb, is_url):
 # known findings
 # ----------------------------------------------------------------------------------------------
 
-def _is_setop(op):
-    return op['op'] in ('setitem', 'setslice')
-
-
 def _group(op):
     return 'tr' if op['on'] in ('tr', 'tier') else op['on']
 
 
 def _own_reasons(observed, group):
     """reasons without those about the held object of the same list (they accompany a deviation of
-    that list; a held-object reason about ANOTHER list is kept and makes the D16a/b matchers fail)"""
+    that list; a held-object reason about ANOTHER list is kept and makes the matcher fail)"""
     return [r for r in observed.get('reasons', []) if not r.startswith(f'held:{group}:')]
 
 
 def _reasons_in_group(observed, group):
     rs = _own_reasons(observed, group)
     return bool(rs) and all(r == 'readback-failed' or r.startswith(group + ':') for r in rs)
-
-
-def match_d16a(case, observed, finding):
-    """first deviation AT an index/slice assignment on a URL list (webseeds, httpseeds or a tier),
-    and only the fields of that list are affected (duplicate / 'None' stored, read-back fails)"""
-    k = observed.get('step')
-    if k is None or observed.get('kind') != 'state':
-        return False
-    op = case['ops'][k]
-    return (op['on'] in ('ws', 'hs', 'tier') and _is_setop(op)
-            and _reasons_in_group(observed, _group(op)))
 
 
 def match_d16b(case, observed, finding):
@@ -504,53 +526,10 @@ def match_d16b(case, observed, finding):
     return op['on'] == 'tr' and op['op'] == 'setslice' and _reasons_in_group(observed, 'tr')
 
 
-def match_d16d(case, observed, finding):
-    """the deviation occurs AT a `replace()` on a HELD Trackers object that raised URLError, concerns
-    ONLY that held object (all reasons are `held:tr:…`: metainfo and fresh read-back agree with each
-    other), nothing was written by that operation (the metainfo is what it was before), and the
-    object holds nothing but URLs of the rejected argument (it is cleared / half replaced).
-    Nothing else matches: not a replace() that succeeded, not a failing extend/append/insert, not a
-    replace() on a URL list (atomic), and not a LATER operation on the object — after a failed
-    replace() the next operation that runs the change callback must bring the metainfo back in
-    sync (`_classify` continues the history after this finding and checks that)."""
-    k = observed.get('step')
-    trail = observed.get('trail')
-    rs = observed.get('reasons', [])
-    if k is None or observed.get('kind') != 'state' or not trail or not rs:
-        return False
-    if any(not r.startswith('held:tr:') for r in rs):
-        return False
-    op = case['ops'][k]
-    if op['on'] != 'tr' or op['op'] != 'replace' or list(trail[k]) != ['held', 'url']:
-        return False
-    if 'before' not in observed or observed.get('mi') != observed['before']:
-        return False
-    held = (observed.get('held') or {}).get('tr')
-    if held is None:
-        return False
-    new = {u.replace(' ', '+') for u in stored_urls(op)}
-    return all(u in new for tier in held for u in tier)
-
-
-D16D_MATCHER = 'c16_failed_replace_on_held_object'
-
-MATCHERS = {'c16_setitem_on_url_list': match_d16a,
-            'c16_slice_assignment_on_tiers': match_d16b,
-            D16D_MATCHER: match_d16d}
-
-
-def callback_must_have_run(op, via, step, prev_held_tr, before_mi):
-    """after a failed replace() on the held Trackers object: does THIS operation (on that object or
-    on one of its tiers) certainly run the object's change callback?  Yes if it changed the content
-    of the object, if it wrote to announce / announce-list, or if it returned normally and is not
-    extend / += (which run the callback once per appended value, i.e. possibly never)."""
-    if via != 'held' or _group(op) != 'tr':
-        return False
-    if op['op'] == 'replace' and op['on'] == 'tr' and step['out'] == 'url':
-        return False                              # again the operation of D16d
-    changed = step['held'].get('tr') != prev_held_tr
-    wrote = any(step['mi'][f] != before_mi[f] for f in ('announce', 'announce-list'))
-    return changed or wrote or (step['out'] == 'ok' and op['op'] not in ('extend', 'iadd'))
+# D16a (index / slice assignment on a URL list, repaired in /repo e62ce6d) and D16d (Trackers.replace()
+# not atomic on a held object, repaired in /repo 41bec34) have no matcher any more: their operations
+# are judged like every other one; the witnesses are regression cases in corpus/C16/.
+MATCHERS = {'c16_slice_assignment_on_tiers': match_d16b}
 
 
 # ----------------------------------------------------------------------------------------------
@@ -572,13 +551,22 @@ def single_ops_full():
         ops += [_u(on, 'delete', i=i) for i in (0, -1, 1)]
         ops += [_u(on, 'delslice', a=0, b=1), _u(on, 'delslice', a=1, b=None), _u(on, 'clear')]
         ops += [_u(on, 'remove', u=A), _u(on, 'remove', u=PL), _u(on, 'pop', i=None), _u(on, 'pop', i=0)]
-        ops += [_u(on, 'replace', us=[B, A]), _u(on, 'replace', us=[A, BAD]), _u(on, 'replace', us=[B, LEAD])]
+        ops += [_u(on, 'replace', us=[B, A]), _u(on, 'replace', us=[A, BAD]), _u(on, 'replace', us=[B, LEAD]),
+                _u(on, 'replace', self=True)]
         ops += [_u(on, 'setitem', i=0, u=A), _u(on, 'setitem', i=0, u=B), _u(on, 'setitem', i=-1, u=SP),
-                _u(on, 'setitem', i=0, u=BAD)]
+                _u(on, 'setitem', i=0, u=BAD), _u(on, 'setitem', i=1, u=A), _u(on, 'setitem', i=5, u=C),
+                _u(on, 'setitem', i=5, u=BAD), _u(on, 'setitem', i=-3, u=C)]
         ops += [_u(on, 'setslice', a=0, b=1, us=[A, A]), _u(on, 'setslice', a=0, b=0, us=[B]),
-                _u(on, 'setslice', a=None, b=None, us=[A, B])]
+                _u(on, 'setslice', a=None, b=None, us=[A, B]),
+                _u(on, 'setslice', a=None, b=None, self=True),                 # lst[:] = lst
+                _u(on, 'setslice', a=1, b=None, us=[C, BAD, B]),               # invalid URL in the middle
+                _u(on, 'setslice', a=None, b=None, st=2, us=[C]),              # extended slices: size right / wrong
+                _u(on, 'setslice', a=None, b=None, st=-1, us=[B, A]),          #   depending on the length
+                _u(on, 'setslice', a=None, b=None, st=0, us=[A]),
+                _u(on, 'setslice', a=0, b=1, us=[]),
+                _u(on, 'set', self=True)]                                      # t.webseeds = t.webseeds
     ops += [_u('hs', 'append', u=A), _u('hs', 'append', u=BAD), _u('hs', 'set', v=[A, B]),
-            _u('hs', 'clear'), _u('hs', 'setitem', i=0, u=A)]
+            _u('hs', 'clear'), _u('hs', 'setitem', i=0, u=A), _u('hs', 'setslice', a=None, b=None, self=True)]
     ops += [_u('tr', 'set', v=v) for v in (None, A, [A, B], [[A, B], [SP]], [[A], [BAD]], BAD, [],
                                            [[A], [A, B]], {'other': 1}, '', [''])]
     ops += [_u('tr', 'append', v=v) for v in (A, [A, B], [B, PL], [BAD], '', [C, BAD], BAD3, [C, LEAD])]
@@ -587,11 +575,13 @@ def single_ops_full():
     ops += [_u('tr', 'iadd', vs=[[B, A]]), _u('tr', 'iadd', vs=[])]
     ops += [_u('tr', 'delete', i=0), _u('tr', 'delete', i=-1), _u('tr', 'delslice', a=0, b=1), _u('tr', 'clear')]
     ops += [_u('tr', 'remove', us=[A]), _u('tr', 'remove', us=[A, B]), _u('tr', 'pop', i=None)]
-    ops += [_u('tr', 'replace', vs=[[B], [A]]), _u('tr', 'replace', vs=[[B], [BAD]])]
+    ops += [_u('tr', 'replace', vs=[[B], [A]]), _u('tr', 'replace', vs=[[B], [BAD]]), _u('tr', 'replace', self=True)]
     ops += [_u('tr', 'setitem', i=0, v=[B]), _u('tr', 'setitem', i=0, v=[A]), _u('tr', 'setitem', i=1, v=PL),
             _u('tr', 'setitem', i=5, v=[BAD]), _u('tr', 'setitem', i=5, v=[C])]
     ops += [_u('tr', 'setslice', a=0, b=1, vs=[[A]]), _u('tr', 'setslice', a=0, b=0, vs=[[A, B]])]
-    for ti, names in ((0, None), (1, ('append-b', 'delete', 'clear', 'setitem-a', 'extend')), (-1, ('append-a', 'pop', 'append-bad'))):
+    ops += [_u('tr', 'set', self=True)]                                        # t.trackers = t.trackers
+    for ti, names in ((0, None), (1, ('append-b', 'delete', 'clear', 'setitem-a', 'extend', 'setitem-b', 'setslice-empty')),
+                      (-1, ('append-a', 'pop', 'append-bad', 'setslice-self'))):
         cand = {
             'append-a': _u('tier', 'append', ti=ti, u=A), 'append-b': _u('tier', 'append', ti=ti, u=B),
             'append-sp': _u('tier', 'append', ti=ti, u=SP), 'append-bad': _u('tier', 'append', ti=ti, u=BAD),
@@ -605,6 +595,13 @@ def single_ops_full():
             'delslice': _u('tier', 'delslice', ti=ti, a=0, b=None),
             'setitem-a': _u('tier', 'setitem', ti=ti, i=0, u=A), 'setitem-b': _u('tier', 'setitem', ti=ti, i=0, u=B),
             'setslice': _u('tier', 'setslice', ti=ti, a=0, b=1, us=[A, A]),
+            'setitem-c': _u('tier', 'setitem', ti=ti, i=0, u=C),               # a URL that may live in another tier
+            'setitem-range': _u('tier', 'setitem', ti=ti, i=4, u=C),
+            'setslice-empty': _u('tier', 'setslice', ti=ti, a=None, b=None, us=[]),       # the tier is emptied
+            'setslice-self': _u('tier', 'setslice', ti=ti, a=None, b=None, self=True),
+            'setslice-other': _u('tier', 'setslice', ti=ti, a=None, b=None, us=[C, B]),   # only URLs of other tiers?
+            'setslice-ext': _u('tier', 'setslice', ti=ti, a=None, b=None, st=-1, us=[C, A]),
+            'setslice-bad': _u('tier', 'setslice', ti=ti, a=0, b=0, us=[C, BAD]),
         }
         ops += [v for k, v in cand.items() if names is None or k in names]
     return ops
@@ -615,7 +612,7 @@ def single_ops_small():
     return [
         _u('ws', 'append', u=A), _u('ws', 'append', u=SP), _u('ws', 'set', v=[A, B]), _u('ws', 'set', v=[PL]),
         _u('ws', 'insert', i=0, u=B), _u('ws', 'delete', i=0), _u('ws', 'extend', us=[A, BAD, B]),
-        _u('ws', 'setitem', i=0, u=A), _u('ws', 'setslice', a=0, b=0, us=[B, B]),
+        _u('ws', 'setitem', i=0, u=A), _u('ws', 'setslice', a=0, b=0, us=[B, B]), _u('ws', 'setslice', a=None, b=None, st=-1, us=[B, A]),
         _u('tr', 'set', v=A), _u('tr', 'set', v=[A, B]), _u('tr', 'set', v=[[A, B], [SP]]), _u('tr', 'set', v=None),
         _u('tr', 'append', v=[B, PL]), _u('tr', 'append', v=A), _u('tr', 'insert', i=0, v=[C]),
         _u('tr', 'delete', i=0), _u('tr', 'setitem', i=0, v=[B]), _u('tr', 'setslice', a=0, b=1, vs=[[A]]),
@@ -627,7 +624,7 @@ def single_ops_small():
 def rnd_url(rng, lead_ok=True):
     r = rng.random()
     if r < 0.78:
-        return rng.choice([A, B, C, SP, PL])
+        return rng.choice([A, B, C, SP, PL, A, B, C, SP, PL, D])
     if r < 0.93:
         return rng.choice([BAD, BAD2, BAD3, ''])
     if lead_ok and r < 0.96:
@@ -654,16 +651,22 @@ def rnd_tierval(rng):
     return rnd_urls(rng, 0, 3)
 
 
+def rnd_step(rng):
+    return rng.choice([None, None, None, None, 1, 2, 2, -1, -1, -2, 3, 0])
+
+
 def rnd_uop(rng, on, allow_set=True, **kw):
+    # (index and slice assignment on a URL list are ordinary operations since /repo e62ce6d;
+    #  `allow_set` only governs slice assignment on the tiers container, see rnd_op)
     names = ['insert', 'append', 'append', 'extend', 'iadd', 'delete', 'delslice', 'clear', 'remove',
-             'pop', 'replace']
-    if allow_set:
-        names += ['setitem', 'setslice']
+             'pop', 'replace', 'setitem', 'setslice', 'setslice']
     n = rng.choice(names)
     if n in ('insert', 'setitem'):
         return _u(on, n, i=rnd_idx(rng), u=rnd_url(rng), **kw)
     if n in ('append', 'remove'):
         return _u(on, n, u=rnd_url(rng), **kw)
+    if n == 'replace' and rng.random() < 0.1:
+        return _u(on, n, self=True, **kw)
     if n in ('extend', 'iadd', 'replace'):
         return _u(on, n, us=rnd_urls(rng), **kw)
     if n == 'delete':
@@ -673,7 +676,10 @@ def rnd_uop(rng, on, allow_set=True, **kw):
     if n == 'pop':
         return _u(on, n, i=rng.choice([None, None, 0, 1, -1, 4]), **kw)
     if n == 'setslice':
-        return _u(on, n, a=rnd_bound(rng), b=rnd_bound(rng), us=rnd_urls(rng), **kw)
+        r = rng.random()
+        if r < 0.12:
+            return _u(on, n, a=rnd_bound(rng), b=rnd_bound(rng), st=rnd_step(rng), self=True, **kw)
+        return _u(on, n, a=rnd_bound(rng), b=rnd_bound(rng), st=rnd_step(rng), us=rnd_urls(rng, 0, 4 if r < 0.5 else 3), **kw)
     return _u(on, n, **kw)
 
 
@@ -681,6 +687,8 @@ def rnd_op(rng, allow_set=True):
     on = rng.choice(['tr', 'tr', 'tr', 'tier', 'tier', 'ws', 'ws', 'hs'])
     if on in ('ws', 'hs'):
         if rng.random() < 0.2:
+            if rng.random() < 0.1:
+                return _u(on, 'set', self=True)
             v = rng.choice([None, rnd_url(rng), rnd_urls(rng), rnd_urls(rng), {'other': 1}])
             return _u(on, 'set', v=v)
         return rnd_uop(rng, on, allow_set)
@@ -693,6 +701,8 @@ def rnd_op(rng, allow_set=True):
     n = rng.choice(names)
     if n == 'set':
         r = rng.random()
+        if r < 0.04:
+            return _u('tr', n, self=True)
         if r < 0.1:
             v = None
         elif r < 0.25:
@@ -706,6 +716,8 @@ def rnd_op(rng, allow_set=True):
         return _u('tr', n, i=rnd_idx(rng), v=rnd_tierval(rng))
     if n == 'append':
         return _u('tr', n, v=rnd_tierval(rng))
+    if n == 'replace' and rng.random() < 0.1:
+        return _u('tr', n, self=True)
     if n in ('extend', 'iadd', 'replace'):
         return _u('tr', n, vs=[rnd_tierval(rng) for _ in range(rng.randint(0, 3))])
     if n == 'delete':
@@ -737,9 +749,14 @@ def held_ops_urls(on, **kw):
             o('extend', us=[B, C]), o('extend', us=[C, BAD]), o('extend', us=[BAD, C]), o('extend', us=[B, BAD, C]),
             o('iadd', us=[C]), o('iadd', us=[C, BAD]), o('iadd', us=[BAD]),
             o('replace', us=[B, C]), o('replace', us=[C, BAD]), o('replace', us=[]), o('replace', us=[C, LEAD]),
+            o('replace', self=True),
             o('remove', u=A), o('remove', u=C), o('pop', i=None), o('pop', i=7), o('delete', i=0), o('delete', i=5),
             o('delslice', a=0, b=1), o('clear'),
-            o('setitem', i=0, u=C), o('setitem', i=0, u=BAD), o('setslice', a=0, b=0, us=[C, BAD])]
+            o('setitem', i=0, u=C), o('setitem', i=0, u=BAD), o('setslice', a=0, b=0, us=[C, BAD]),
+            o('setitem', i=-1, u=A), o('setitem', i=1, u=B), o('setitem', i=5, u=C),
+            o('setslice', a=None, b=None, self=True), o('setslice', a=None, b=None, us=[]),
+            o('setslice', a=0, b=1, us=[B, B, A]), o('setslice', a=1, b=None, us=[C, B]),
+            o('setslice', a=None, b=None, st=-1, us=[B, A]), o('setslice', a=None, b=None, st=2, us=[C, C])]
 
 
 def held_ops_tiers():
@@ -752,11 +769,16 @@ def held_ops_tiers():
            o('replace', vs=[[B], [C]]), o('replace', vs=[]), o('replace', vs=[[C], [BAD]]), o('replace', vs=[[BAD], [C]]),
            o('replace', vs=[[C, LEAD]]),
            o('remove', us=[A]), o('remove', us=[C]), o('pop', i=None), o('pop', i=7), o('delete', i=0), o('delete', i=5),
-           o('delslice', a=0, b=1), o('clear'), o('setitem', i=0, v=[C]), o('setitem', i=0, v=[BAD])]
+           o('delslice', a=0, b=1), o('clear'), o('setitem', i=0, v=[C]), o('setitem', i=0, v=[BAD]),
+           o('replace', vs=[[A, B], [BAD2]]), o('replace', self=True), o('setitem', i=-1, v=[A, C]), o('setitem', i=5, v=[C])]
     for ti in (0, 1):
         ops += [_u('tier', 'append', ti=ti, u=C), _u('tier', 'extend', ti=ti, us=[C, BAD]),
                 _u('tier', 'iadd', ti=ti, us=[C, BAD]), _u('tier', 'iadd', ti=ti, us=[C]),
-                _u('tier', 'clear', ti=ti), _u('tier', 'pop', ti=ti, i=None), _u('tier', 'remove', ti=ti, u=B)]
+                _u('tier', 'clear', ti=ti), _u('tier', 'pop', ti=ti, i=None), _u('tier', 'remove', ti=ti, u=B),
+                _u('tier', 'setitem', ti=ti, i=0, u=C), _u('tier', 'setitem', ti=ti, i=0, u=B),
+                _u('tier', 'setslice', ti=ti, a=None, b=None, us=[]),
+                _u('tier', 'setslice', ti=ti, a=0, b=1, us=[C, C, SP]),
+                _u('tier', 'setslice', ti=ti, a=0, b=None, us=[A, BAD])]
     return ops
 
 
@@ -788,18 +810,58 @@ def gen_held_exhaustive(ctx):
             add(start, [_get('tier', ti=ti, k=0), a, x, b])
     # a failed batch operation, then three more operations on the same object (thorough: longer tails)
     fails = {'ws': [_u('ws', 'extend', us=[B, BAD, C]), _u('ws', 'iadd', us=[BAD]), _u('ws', 'replace', us=[C, BAD]),
-                    _u('ws', 'setslice', a=0, b=0, us=[C, BAD]), _u('ws', 'remove', u=C), _u('ws', 'pop', i=7)],
+                    _u('ws', 'setslice', a=0, b=0, us=[C, BAD]), _u('ws', 'remove', u=C), _u('ws', 'pop', i=7),
+                    _u('ws', 'setitem', i=7, u=C), _u('ws', 'setslice', a=None, b=None, st=2, us=[C, B, A])],
              'tr': [_u('tr', 'extend', vs=[[C], [BAD]]), _u('tr', 'iadd', vs=[[BAD]]), _u('tr', 'append', v=[C, BAD]),
                     _u('tier', 'extend', ti=0, us=[C, BAD]), _u('tier', 'iadd', ti=-1, us=[BAD]), _u('tr', 'pop', i=7),
-                    _u('tr', 'replace', vs=[[C], [BAD]]), _u('tr', 'replace', vs=[[B, SP], [C], BAD2])]}
+                    _u('tr', 'replace', vs=[[C], [BAD]]), _u('tr', 'replace', vs=[[B, SP], [C], BAD2]),
+                    _u('tr', 'replace', vs=[[BAD]]), _u('tier', 'setslice', ti=0, a=0, b=1, us=[C, BAD]),
+                    _u('tier', 'setitem', ti=0, i=9, u=SP)]}
     tails = {'ws': [_u('ws', 'append', u=C), _u('ws', 'insert', i=0, u=SP), _u('ws', 'remove', u=A), _u('ws', 'clear'),
                     _u('ws', 'extend', us=[B, C]), _u('ws', 'delete', i=0)],
              'tr': [_u('tr', 'append', v=[C]), _u('tier', 'append', ti=0, u=SP), _u('tier', 'clear', ti=0), _u('tr', 'clear'),
-                    _u('tr', 'delete', i=-1), _u('tier', 'remove', ti=0, u=A)]}
+                    _u('tr', 'delete', i=-1), _u('tier', 'remove', ti=0, u=A), _u('tier', 'setitem', ti=0, i=0, u=C)]}
     for g in ('ws', 'tr'):
         for f in fails[g]:
             for tail in itertools.product(tails[g], repeat=3 if ctx.thorough else 2):
                 add('full', [_get(g), f] + list(tail))
+    return cases
+
+
+def gen_assign_grid(ctx):
+    """index and slice assignment on a URL list (MonitoredList.__setitem__), exhaustively over small
+    shapes: lists of 0-3 URLs (webseeds through a fresh getter, a held webseeds object, both tiers of
+    [[a, b], [c]] fresh and through a held Trackers object) x every index -4..3 x {a URL inside the
+    list, outside it, in another tier, coercion duplicates, invalid} and x a grid of plain and
+    extended slices x {nothing, one item inside / outside, duplicates among the new items, an
+    invalid URL in the middle, the whole content, the list itself}"""
+    cases = []
+    setups = [('empty', [_u('ws', 'set', v=L)], 'ws', {}) for L in ([], [A], [A, B], [A, B, C])]
+    setups += [('empty', [_u('ws', 'set', v=[A, B, C]), _get('ws')], 'ws', {})]
+    setups += [('full', [], 'tier', {'ti': 0}), ('full', [], 'tier', {'ti': 1}),
+               ('full', [_get('tr')], 'tier', {'ti': 0}), ('full', [_get('tier', ti=1, k=0)], 'tier', {'k': 0})]
+    if ctx.thorough:
+        setups += [('empty', [_u('hs', 'set', v=[SP, B]), _get('hs')], 'hs', {}),
+                   ('empty', [_u('tr', 'set', v=[[A, B, C], [D]])], 'tier', {'ti': 0}),
+                   ('single', [_get('tier', ti=0, k=0)], 'tier', {'k': 0})]
+    idx = [-4, -3, -2, -1, 0, 1, 2, 3]
+    urls = [A, B, C, D, PL, SP, BAD] + ([LEAD, BAD3] if ctx.thorough else [])
+    if ctx.thorough:
+        bounds, steps = [None, -5, -3, -2, -1, 0, 1, 2, 3, 5], [None, 1, 2, 3, -1, -2, -3, 0]
+    else:
+        bounds, steps = [None, -1, 0, 1, 2, 4], [None, 2, -1, -2, 0]
+    vals = [dict(us=[]), dict(us=[A]), dict(us=[D]), dict(us=[B, B]), dict(us=[C, A]), dict(us=[D, BAD, A]),
+            dict(us=[A, B, C]), dict(self=True)]
+    if ctx.thorough:
+        vals += [dict(us=[SP, PL]), dict(us=[C, B, A]), dict(us=[D, D, A, A]), dict(us=[B, LEAD])]
+    for start, pre, on, kw in setups:
+        for i in idx:
+            for u in urls:
+                cases.append({'start': start, 'ops': pre + [_u(on, 'setitem', i=i, u=u, **kw)], 'kind': 'assign-grid'})
+        for a, b, st in itertools.product(bounds, bounds, steps):
+            for v in vals:
+                cases.append({'start': start, 'ops': pre + [_u(on, 'setslice', a=a, b=b, st=st, **v, **kw)],
+                              'kind': 'assign-grid'})
     return cases
 
 
@@ -844,7 +906,7 @@ def rnd_held_history(rng, allow_set):
 
 def gen_held_cases(ctx, scale=1.0):
     rng = ctx.rng
-    cases = gen_held_exhaustive(ctx)
+    cases = gen_held_exhaustive(ctx) + gen_assign_grid(ctx)
     for _ in range(int(ctx.n(2500, 120000) * scale)):
         cases.append({'start': rng.choice(['empty', 'full', 'full', 'single']),
                       'ops': rnd_held_history(rng, allow_set=False), 'kind': 'held-rnd-clean'})
@@ -881,17 +943,21 @@ def gen_cases(ctx, scale=1.0):
         for c in full:
             cases.append({'start': start, 'ops': [c], 'kind': 'exh1'})
     ctx.notes['exhaustive_scope'] = (
-        f'{len(full)} single operations (URL alphabet a, b, "http://a b", "http://a+b", invalid, blank): all '
+        f'{len(full)} single operations (URL alphabet a, b, c, "http://a b", "http://a+b", invalid, blank, leading space; index / slice '
+        f'assignment with duplicates, self-assignment, extended slices, out-of-range index, invalid URL in the middle, emptied tier): all '
         f'histories of <= 2 operations from the empty and the full start state; all histories of 3 operations '
         f'whose first two are among {len(first2)} state-building operations'
         + ('; plus (thorough) the same from the single-URL start state and all 3-operation histories whose '
-           'first operation is one of every third state-building operation' if ctx.thorough else ''))
-    # 2. random histories, up to 8 operations, without index/slice assignment (theorem fragment)
+           'first operation is one of every third state-building operation' if ctx.thorough else '')
+        + '; assignment grid: every index -4..3 x 7 URLs and every slice of a bound x bound x step grid x 8 value shapes on '
+          'lists of 0-3 URLs, on both tiers of [[a, b], [c]] and on held objects')
+    # 2. random histories, up to 8 operations, without slice assignment on the tiers (theorem fragment;
+    #    index / slice assignment on URL lists — plain, extended, self — is part of it)
     for _ in range(int(ctx.n(6000, 200000) * scale)):
         k = rng.randint(1, 8)
         cases.append({'start': rng.choice(['empty', 'empty', 'full', 'single']),
                       'ops': [rnd_op(rng, allow_set=False) for _ in range(k)], 'kind': 'rnd-clean'})
-    # 3. random histories with index/slice assignments (findings D16a/b live here)
+    # 3. random histories with slice assignment on the tiers container too (finding D16b lives here)
     for _ in range(int(ctx.n(2500, 80000) * scale)):
         k = rng.randint(1, 8)
         cases.append({'start': rng.choice(['empty', 'empty', 'full', 'single']),
@@ -982,14 +1048,11 @@ def _classify(ctx, c, steps, is_url, r):
     nchanges, prev_mi = 0, before_mi
     msteps = iter(r['steps'])
     trail = []
-    d16d_ids = {f['id'] for f in ctx.open_findings() if f.get('matcher') == D16D_MATCHER}
-    desync = False        # the held Trackers object differs from the metainfo since a failed replace() (D16d)
-    model_valid = True    # the fresh-getter translation still describes the history
     for k, s in enumerate(steps):
         op = c['ops'][k]
         mop = s['mop']
         m = next(msteps) if mop is not None else None
-        hyp = bool(m and m['hyp']) and model_valid
+        hyp = bool(m and m['hyp'])
         via = s['via']
         trail.append([via, s['out']])
         key += '|' + _opstr(op)
@@ -1011,22 +1074,6 @@ def _classify(ctx, c, steps, is_url, r):
                                     {'case': case, 'step': k, 'reasons': reasons, 'lean': lean_ok, 'obs': s})
                 return None
         hreasons = held_reasons(s['mi'], s['rb'], s['held'])
-        if desync:
-            # D16d was counted at the failed replace(); from there on the held Trackers object may
-            # stay out of sync only until an operation runs its change callback
-            tr_h = [x for x in hreasons if x.startswith('held:tr:')]
-            prev_tr = steps[k - 1]['held'].get('tr') if k else None
-            if 'tr' not in s['held']:
-                desync = False                                         # assigned: the object is stale
-                ctx.dist['after-failed-replace:object-dropped'] += 1
-            elif not tr_h:
-                desync = False
-                ctx.dist['after-failed-replace:in-sync-again'] += 1
-            elif callback_must_have_run(op, via, s, prev_tr, before_mi):
-                ctx.dist['after-failed-replace:deviation-at-callback-operation'] += 1   # reported below (VIOLATION unless it is D16a/b itself)
-            elif not (via == 'held' and op['on'] == 'tr' and op['op'] == 'replace' and s['out'] == 'url'):
-                hreasons = [x for x in hreasons if x not in tr_h]      # the same deviation, still there
-                ctx.dist['after-failed-replace:still-out-of-sync'] += 1
         obs = {'step': k, 'op': op, 'mi': s['mi'], 'rb': s['rb'], 'out': s['out'], 'rbexc': s['rbexc']}
         if s['held'] or via != 'fresh':
             obs.update(held=s['held'], via=via, trail=list(trail), before=before_mi)
@@ -1035,28 +1082,19 @@ def _classify(ctx, c, steps, is_url, r):
         if (reasons and not legacy) or hreasons:
             allr = (reasons if not legacy else []) + hreasons
             obs.update(kind='state', reasons=allr, is_url={u: is_url.get(u) for u in is_url})
-            exp = {'model_mi': m['mi'], 'model_rb': m['rb'], 'model_out': m['out'], 'hyp': hyp} if m and model_valid else \
-                  {'metainfo': 'unchanged by obtaining a list object', 'before': before_mi} if not m else \
-                  {'after a failed replace() on the held object': 'the next operation that runs the change callback '
-                   'writes the content of the object to announce / announce-list'}
+            exp = {'model_mi': m['mi'], 'model_rb': m['rb'], 'model_out': m['out'], 'hyp': hyp} if m else \
+                  {'metainfo': 'unchanged by obtaining a list object', 'before': before_mi}
             if hreasons:
                 exp['held'] = 'the metainfo fields mirror the held list object and reading the list back gives its content'
             v = ctx.violation(
                 f'after operation {k} ({op["on"]}.{op["op"]}{" on a held list object" if via == "held" else ""}) '
                 f'metainfo and lists are out of sync: {", ".join(allr)}',
                 case, exp, obs, finding_matchers=MATCHERS) or 'violation'
-            if v in d16d_ids:
-                # a failed replace() on the held Trackers object: recorded; the history goes on (the
-                # model translation is not valid for the rest of it, the specification is)
-                verdict = verdict or v
-                desync, model_valid = True, False
-                before_rb, before_mi = s['rb'], s['mi']
-                continue
             return verdict or v
         if s['out'].startswith('internal:'):
             obs.update(kind='outcome')
             ctx.violation(f'operation {k} ({op["on"]}.{op["op"]}) raised an undocumented {s["out"][9:]}',
-                          case, {'model_out': m['out'] if m and model_valid else None}, obs, finding_matchers=MATCHERS)
+                          case, {'model_out': m['out'] if m else None}, obs, finding_matchers=MATCHERS)
             return 'violation'
         if m is None:
             # obtaining a list object / a skipped stale tier handle: nothing may change
@@ -1067,10 +1105,6 @@ def _classify(ctx, c, steps, is_url, r):
                               case, {'mi': before_mi, 'rb': steps[k - 1]['rb'] if k else None, 'out': want_out}, obs,
                               finding_matchers=MATCHERS)
                 return 'violation'
-            continue
-        if not model_valid:
-            ctx.dist['after-failed-replace:spec-only'] += 1
-            before_rb, before_mi = s['rb'], s['mi']
             continue
         if not legacy and reject_expected(mop, before_rb, is_url):
             atomic = mop['op'] not in ('extend', 'iadd')
@@ -1106,7 +1140,8 @@ def _clean_prefix(ops, k):
 
 
 def _affected(op):
-    return (op['on'] in ('ws', 'hs', 'tier') and _is_setop(op)) or (op['on'] == 'tr' and op['op'] == 'setslice')
+    """the only operation outside the theorem hypothesis: slice assignment on the tiers container (D16b)"""
+    return op['on'] == 'tr' and op['op'] == 'setslice'
 
 
 def _load_corpus():
@@ -1141,13 +1176,14 @@ def run(ctx, drv):
         'histories: per list at most ONE object is edited at a time (ws = t.webseeds / hs / tr = t.trackers / tier = tr[i], '
         'several operations on it, also after operations that raised; stale tier handles are skipped); they are checked '
         'implementation-vs-specification directly (metainfo mirrors the held object, read-back equals it) and against the '
-        'model through the equivalent fresh-getter history (callback alive => same state machine; proved in Lean only for '
-        'replace/append/clear on a held Trackers object); two objects of one list edited alternately are not modelled',
-        'after a replace() that raised on a held Trackers object (open finding D16d: object half replaced, nothing written) '
-        'the rest of that history is checked against the specification only (the next operation that runs the change '
-        'callback must re-synchronise the metainfo with the object), not against the model',
-        'values are None / str / list of str / list of (str | list of str) / a non-iterable; deeper nesting, '
-        'extended slices (step != 1), assigning a list to an integer index of a URL list and reverse()/sort() are not modelled',
+        'model through the equivalent fresh-getter history (callback alive => same state machine: C16_held_same_as_fresh_partial '
+        'for a held Trackers object under the modelling claim that the object holds what its last callback call saw; the order of '
+        'effects inside replace/append/clear is modelled separately, C16_held_sync); two objects of one list edited alternately '
+        'are not modelled',
+        'values are None / str / list of str / list of (str | list of str) / a non-iterable / the list object itself '
+        '(lst[:] = lst, t.webseeds = t.webseeds); deeper nesting, extended slices in DELETIONS and on the tiers container, '
+        'assigning a list to an integer index of a URL list, a string / non-iterable to a slice or to replace(), and '
+        'reverse()/sort() are not modelled',
         'the metainfo fields only hold what the API itself writes (plus two legacy start states that are '
         'compared model-vs-code only)',
         'blank tier strings: str.strip() agrees with the model on the generated strings (checked per case)',
